@@ -1371,7 +1371,10 @@ where
 
 #[derive(Debug, Clone)]
 pub enum AggregateFunction {
+    /// COUNT(*): every row counts
     Count { distinct: bool },
+    /// COUNT(col): rows whose `column` is NULL are skipped
+    CountColumn { column: usize, distinct: bool },
     Sum { column: usize },
     Avg { column: usize },
     Min { column: usize },
